@@ -2,13 +2,15 @@
 
 package controller
 
+import "strconv"
+
 func init() {
 	verifHarnesses["VerifHarness_C03"] = VerifHarness_C03
 }
 
 // VerifHarness_C03: tainting keeps >= min_nodes untainted; below the minimum
 // nothing is tainted and capacity is restored (untaint first, then cloud).
-// shape: [nodes, pods, failure budget, auto-discovery(0/1), class menu]
+// shape: [nodes, pods, failure budget, auto-discovery(0/1), class menu, prior scan (0/1)]
 func VerifHarness_C03() {
 	N, P, F, auto, menu := verifShape(0), verifShape(1), verifShape(2), verifShape(3), verifShape(4)
 	w := newWorld(F)
@@ -30,15 +32,44 @@ func VerifHarness_C03() {
 	o.SlowNodeRemovalRate = int(verifInt("slow", 0, int64(N)+2))
 	o.FastNodeRemovalRate = int(verifInt("fast", 0, int64(N)+2))
 	verifAssume(o.SlowNodeRemovalRate <= o.FastNodeRemovalRate)
-	g := w.addGroup(o, asgMin, asgMax, extra)
+	prior := verifShape(5) == 1
 	classes := [][]int{{tcNone, tcEsc}, {tcNone, tcEsc, tcForce, tcEscGarbage}}[menu]
-	w.symNodes("", g, N, classes, true, []int{0}, false)
-	w.symPods("", g, P, 2, false, -3*w.cpuPerNode, false)
+	var g int
+	if !prior {
+		g = w.addGroup(o, asgMin, asgMax, extra)
+		w.symNodes("", g, N, classes, true, []int{0}, false)
+		w.symPods("", g, P, 2, false, -3*w.cpuPerNode, false)
+	} else {
+		// an earlier, uneventful scan of the same controller: all nodes schedulable and
+		// untainted, utilisation in the idle band, generous cloud limits. Then the cluster
+		// and the cloud group change to the snapshot under test.
+		g = w.addGroup(o, 0, int64(N)+3, extra)
+		w.symNodes("", g, N, []int{tcNone}, false, []int{0}, false)
+		w.symPods("", g, P, 2, false, int64(N)*w.cpuPerNode*60/100/int64(P), false)
+	}
 	asg := w.AS.Group(o.CloudProviderGroupName)
 	// AWS keeps min <= desired <= max
 	verifAssume(verifAnd(asgMin <= asg.Desired, asg.Desired <= asgMax))
 	desired := asg.Desired
 	w.build()
+	if prior {
+		_ = w.ctrl.RunOnce()
+		asg.Min, asg.Max = asgMin, asgMax
+		for i, n := range w.nodes {
+			is := "n" + strconv.Itoa(i)
+			class := classes[verifChoice(is+".class", len(classes))]
+			var age int64
+			if class == tcEsc {
+				age = verifInt(is+".taintAge", -60, 2000)
+			}
+			w.retaint(n, class, age)
+			n.cordoned = verifBool(is + ".cordoned")
+			n.obj.Spec.Unschedulable = n.cordoned
+		}
+		for j, p := range w.pods {
+			w.setPodCPU(p, verifInt("p"+strconv.Itoa(j)+".cpu", 0, 3*w.cpuPerNode))
+		}
+	}
 	s := w.snap(g)
 	mark := len(w.J.Calls)
 	_ = w.ctrl.RunOnce()
